@@ -4,6 +4,7 @@
     delivery order (interleaving of the two sides and of their end markers).
     Output tuples are normalised by the harness to (key, (Option left, Option right)). *)
 From Noir Require Import Base.Elem Model.Start Model.BinaryStart Model.Ops Model.Joins Corr.BinCorr Corr.Canon.
+From Noir Require Model.Pipe Corr.C01.
 From Coq Require Import NArith.
 Open Scope Z_scope.
 
@@ -15,8 +16,11 @@ Inductive case :=
 | CJoin (a : algo) (v : variant) (m : Z) (nl nr : nat) (dels : list del) (out : list (elem jo))
     (* key = value mod m on both sides *)
 | CInterval (lb ub : Z) (nl nr : nat) (dels : list (@delivery (Z * Z) (Z * Z)))
-            (out : list (elem (Z * (Z * Z)))).
+            (out : list (elem (Z * (Z * Z))))
     (* keyed interval join: elements are (key, value), timestamped *)
+| CJoinJob (c : C01.case).
+    (* a whole job `left.join(right)` through the API (every variant x hash / broadcast shipping x
+       hash / sort-merge) on several deployments: the sink multisets against the relational join *)
 
 Definition key_mod (m x : Z) : Z := Z.modulo x m.
 
@@ -63,6 +67,7 @@ Definition corr_ok (c : case) : bool :=
   | CJoin a v m nl nr dels out => jll_eqb (canon_round (model_join a v m nl nr dels)) (canon_round out)
   | CInterval lb ub nl nr dels out =>
       list_eqb (elem_eqb zzz_eqb) (strip_fb (model_interval lb ub nl nr dels)) (strip_fb out)
+  | CJoinJob c => C01.corr_ok c
   end.
 
 (** ---- the property: per round, exactly the relational join of what the two sides delivered ---- *)
@@ -97,6 +102,7 @@ Definition prop_ok (c : case) : bool :=
         list_eqb (elem_eqb zzz_eqb) (nth r got [])
           (sort_by key3 (interval_spec lb ub (tsd (nth r lr [])) (map (fun p => (fst (snd p), (fst p, snd (snd p)))) (tsd (nth r rr []))))))
         (seq 0 (Nat.max (length lr) (length rr)))
+  | CJoinJob c => C01.prop_ok c
   end.
 
 Definition known_class (c : case) : N := 0%N.
